@@ -109,21 +109,102 @@ fn connect_proxy(target_port: u16) -> u16 {
     port
 }
 
+/// HTTPS proxy: TLS to the proxy itself (identity `proxy`, name sproxy.test), then CONNECT inside it,
+/// then the decrypted bytes are relayed to `target_port` (where the origin's TLS server listens)
+fn tls_connect_proxy(target_port: u16) -> u16 {
+    let acceptor = Arc::new(native_tls::TlsAcceptor::new(identity("proxy")).unwrap());
+    let l = TcpListener::bind("127.0.0.1:0").unwrap();
+    let port = l.local_addr().unwrap().port();
+    std::thread::spawn(move || {
+        l.set_nonblocking(true).ok();
+        let end = Instant::now() + Duration::from_secs(90);
+        while Instant::now() < end {
+            match l.accept() {
+                Ok((c, _)) => {
+                    let acceptor = acceptor.clone();
+                    std::thread::spawn(move || {
+                        c.set_nonblocking(false).ok();
+                        c.set_read_timeout(Some(Duration::from_secs(2))).ok();
+                        let raw = c.try_clone().unwrap();
+                        let mut t = match acceptor.accept(c) {
+                            Ok(t) => t,
+                            Err(_) => return,
+                        };
+                        let mut head = vec![];
+                        let mut b = [0u8; 1];
+                        while !head.ends_with(b"\r\n\r\n") {
+                            match t.read(&mut b) {
+                                Ok(1) => head.push(b[0]),
+                                _ => return,
+                            }
+                        }
+                        if !head.starts_with(b"CONNECT ") {
+                            return;
+                        }
+                        let mut up = match TcpStream::connect(("127.0.0.1", target_port)) {
+                            Ok(u) => u,
+                            Err(_) => return,
+                        };
+                        if t.write_all(b"HTTP/1.1 200 Connection established\r\n\r\n").is_err() {
+                            return;
+                        }
+                        // single-threaded relay with short read timeouts on both sides
+                        raw.set_read_timeout(Some(Duration::from_millis(5))).ok();
+                        up.set_read_timeout(Some(Duration::from_millis(5))).ok();
+                        let mut buf = [0u8; 16384];
+                        let stop = Instant::now() + Duration::from_secs(4);
+                        let would_block = |e: &std::io::Error| matches!(e.kind(), std::io::ErrorKind::WouldBlock | std::io::ErrorKind::TimedOut);
+                        while Instant::now() < stop {
+                            match t.read(&mut buf) {
+                                Ok(0) => break,
+                                Ok(n) => {
+                                    if up.write_all(&buf[..n]).is_err() {
+                                        break;
+                                    }
+                                }
+                                Err(e) if would_block(&e) => {}
+                                Err(_) => break,
+                            }
+                            match up.read(&mut buf) {
+                                Ok(0) => break,
+                                Ok(n) => {
+                                    if t.write_all(&buf[..n]).is_err() {
+                                        break;
+                                    }
+                                }
+                                Err(e) if would_block(&e) => {}
+                                Err(_) => break,
+                            }
+                        }
+                        let _ = t.shutdown();
+                    });
+                }
+                Err(_) => std::thread::sleep(Duration::from_millis(2)),
+            }
+        }
+    });
+    port
+}
+
 pub fn generate(_seed: u64, tier: &str, sink: &mut Sink) {
     let thorough = tier == "thorough";
     // (identity, chain ok given the root is added, time ok)
     let chains = [("good", true, true), ("selfsigned", false, true), ("unknown", false, true), ("expired", true, false)];
     let ports: Vec<u16> = chains.iter().map(|c| tls_server(c.0)).collect();
     let proxies: Vec<u16> = ports.iter().map(|p| connect_proxy(*p)).collect();
+    let tls_proxies: Vec<u16> = ports.iter().map(|p| tls_connect_proxy(*p)).collect();
     std::thread::sleep(Duration::from_millis(50));
     for (ci, (chain, chain_ok_with_root, time_ok)) in chains.iter().enumerate() {
         for name_ok in [true, false] {
             for aic in [false, true] {
                 for aih in [false, true] {
                     for root_added in [false, true] {
-                        for mode in ["direct", "connect"] {
+                        for mode in ["direct", "connect", "https-proxy"] {
                             for place in ["session", "request", "sibling"] {
-                                if !thorough && place == "sibling" && mode == "connect" && aic {
+                                if !thorough && place == "sibling" && mode != "direct" && aic {
+                                    continue;
+                                }
+                                if !thorough && mode == "https-proxy" && (place == "request" || (*chain == "unknown")) {
                                     continue;
                                 }
                                 let host = if name_ok { "good.test" } else { "other.test" };
@@ -134,6 +215,9 @@ pub fn generate(_seed: u64, tier: &str, sink: &mut Sink) {
                                 sess.read_timeout(Duration::from_secs(2));
                                 if mode == "connect" {
                                     sess.proxy_settings(attohttpc::ProxySettings::builder().https_proxy(url::Url::parse(&format!("http://127.0.0.1:{}", proxies[ci])).ok()).build());
+                                } else if mode == "https-proxy" {
+                                    attohttpc::verif_hooks::set_resolver_override("sproxy.test", vec![std::net::SocketAddr::from(([127, 0, 0, 1], tls_proxies[ci]))]);
+                                    sess.proxy_settings(attohttpc::ProxySettings::builder().https_proxy(url::Url::parse(&format!("https://sproxy.test:{}", tls_proxies[ci])).ok()).build());
                                 } else {
                                     sess.proxy_settings(attohttpc::ProxySettings::builder().build());
                                 }
@@ -190,7 +274,11 @@ pub fn generate(_seed: u64, tier: &str, sink: &mut Sink) {
                                 };
                                 let chain_ok = *chain_ok_with_root && eff_root;
                                 // the matrix of the statement
-                                let want = (chain_ok && *time_ok && name_ok) || eff_aic || (eff_aih && chain_ok && *time_ok);
+                                let origin_ok = (chain_ok && *time_ok && name_ok) || eff_aic || (eff_aih && chain_ok && *time_ok);
+                                // the https proxy presents a certificate that chains to the test root, is in date and
+                                // matches its name: it verifies iff the root was added or invalid certs are accepted
+                                let proxy_ok = mode != "https-proxy" || eff_root || eff_aic;
+                                let want = origin_ok && proxy_ok;
                                 let o = if accepted == want {
                                     Ok(())
                                 } else if accepted {
